@@ -121,6 +121,30 @@ where
     Ok(())
 }
 
+/// Writes a field whose value is normally unquoted, e.g., a contig URL.
+///
+/// A raw value ends at the next field delimiter or map terminator, and a leading quotation mark
+/// starts a quoted string. A value that cannot be read back as a raw string is therefore written
+/// as a quoted string.
+fn write_raw_or_string_field<W, K>(writer: &mut W, key: K, value: &str) -> io::Result<()>
+where
+    W: Write,
+    K: AsRef<str>,
+{
+    const COMMA: char = ',';
+    const GREATER_THAN_SIGN: char = '>';
+
+    fn requires_quotes(s: &str) -> bool {
+        s.starts_with(QUOTATION_MARK) || s.contains([COMMA, GREATER_THAN_SIGN])
+    }
+
+    if requires_quotes(value) {
+        write_string_field(writer, key, value)
+    } else {
+        write_value_field(writer, key, value)
+    }
+}
+
 fn write_key<W, K>(writer: &mut W, key: K) -> io::Result<()>
 where
     W: Write,
